@@ -215,6 +215,12 @@ impl Family for Syntax {
         } else {
             vec![]
         };
+        // every walk is also an event for Trace_Visitor: the model's element tree of the file and what was presented
+        if self.mode == "visit" {
+            for (fi, got) in visited.iter().enumerate() {
+                crate::util::emit_event("visit", &json!({"ev": "walk", "f": fi + 1, "tree": case["tree"][fi], "got": got}));
+            }
+        }
         let diags = state.into_diagnostics(&Default::default());
         let errors: Vec<String> = diags
             .iter()
